@@ -29,6 +29,11 @@ def main():
             data = json.load(open(a.replay))
             mod.replay(ctx, data)
         else:
+            import glob, shutil
+            shutil.rmtree(core.VERIF / "replays" / a.pid, ignore_errors=True)
+            for f in sorted(glob.glob(str(core.VERIF / "corpus" / a.pid / "*.json"))):
+                ctx.count("corpus_cases")
+                mod.replay(ctx, json.load(open(f)))
             mod.run(ctx)
     except Exception:
         tb = traceback.format_exc()
